@@ -1,6 +1,7 @@
-// C18 link probe (D11): the timed waits of yaclib_std::condition_variable that return std::cv_status call
-// `CVStatusFrom`, which include/yaclib/fault/detail/condition_variable.hpp declares `constexpr` (hence inline) and only
-// src/fault/condition_variable.cpp defines: every program that calls them fails to link under YACLIB_FAULT != OFF.
+// C18 link probe (regression for D11, fixed 72143ee): the timed waits of yaclib_std::condition_variable that return
+// std::cv_status call `CVStatusFrom`; it was declared `constexpr` (hence inline) in
+// include/yaclib/fault/detail/condition_variable.hpp and defined only in src/fault/condition_variable.cpp, so every program
+// that called them failed to link under YACLIB_FAULT != OFF.  This file must compile and link.
 #include <chrono>
 #include <mutex>
 #include <yaclib_std/condition_variable>
